@@ -1,0 +1,366 @@
+// SPDX-License-Identifier: Apache-2.0 OR BSD-3-Clause
+
+//! Verification seams. This module only exists when the crate is built with
+//! `--cfg vm_memory_verif`; it is never part of a normal build.
+//!
+//! A simulator installs a [`SimHooks`] object for the current thread. The shims below are
+//! drop-in replacements for a handful of names (`AtomicU64`, `read_volatile`, `ArcSwap`,
+//! `libc::mmap`, ...) that the rest of the crate imports under the same cfg. Every shim first
+//! tells the installed hooks what is about to happen and then performs the real operation.
+//! With no hooks installed every shim is a plain pass-through.
+
+#![allow(missing_docs)]
+#![allow(clippy::missing_safety_doc)]
+
+use std::cell::Cell;
+
+/// Kind of operation performed on a bitmap word.
+#[derive(Clone, Copy, Debug, PartialEq, Eq)]
+pub enum AtomicOp {
+    Load,
+    Store,
+    FetchOr,
+    FetchAnd,
+}
+
+/// Synchronisation points of the atomically replaceable guest memory.
+#[derive(Clone, Copy, Debug, PartialEq, Eq)]
+pub enum SwapPoint {
+    BeforeLoad,
+    BeforeStore,
+    LockAttempt,
+    LockBlocked,
+    Locked,
+    Unlocked,
+}
+
+/// Callbacks a simulator provides. Every method has a pass-through default.
+pub trait SimHooks {
+    /// A bitmap word is about to be operated on.
+    fn atomic(&self, _word: usize, _op: AtomicOp, _arg: u64) {}
+    /// A primitive volatile access of `width` bytes at `addr` is about to be made.
+    fn access(&self, _write: bool, _addr: usize, _width: usize) {}
+    /// A bulk (`copy_nonoverlapping`) copy is about to be made. Returning `true` means the
+    /// simulator performed the copy itself.
+    fn bulk(&self, _dst: *mut u8, _src: *const u8, _len: usize) -> bool {
+        false
+    }
+    /// A possibly overlapping `ptr::copy` of `len` bytes is about to be made.
+    fn copy(&self, _src: *const u8, _dst: *mut u8, _len: usize) {}
+    /// The stored address is about to be dereferenced without a pointer guard.
+    fn touch(&self, _addr: usize, _len: usize, _write: bool) {}
+    /// A synchronisation point of `GuestMemoryAtomic` identified by `obj`.
+    fn swap_point(&self, _p: SwapPoint, _obj: usize) {}
+
+    #[cfg(any(feature = "backend-mmap", feature = "rawfd"))]
+    unsafe fn mmap(
+        &self,
+        addr: *mut ::libc::c_void,
+        len: ::libc::size_t,
+        prot: ::libc::c_int,
+        flags: ::libc::c_int,
+        fd: ::libc::c_int,
+        offset: ::libc::off_t,
+    ) -> *mut ::libc::c_void {
+        ::libc::mmap(addr, len, prot, flags, fd, offset)
+    }
+
+    #[cfg(any(feature = "backend-mmap", feature = "rawfd"))]
+    unsafe fn munmap(&self, addr: *mut ::libc::c_void, len: ::libc::size_t) -> ::libc::c_int {
+        ::libc::munmap(addr, len)
+    }
+
+    #[cfg(any(feature = "backend-mmap", feature = "rawfd"))]
+    unsafe fn read(
+        &self,
+        fd: ::libc::c_int,
+        buf: *mut ::libc::c_void,
+        count: ::libc::size_t,
+    ) -> ::libc::ssize_t {
+        ::libc::read(fd, buf, count)
+    }
+
+    #[cfg(any(feature = "backend-mmap", feature = "rawfd"))]
+    unsafe fn write(
+        &self,
+        fd: ::libc::c_int,
+        buf: *const ::libc::c_void,
+        count: ::libc::size_t,
+    ) -> ::libc::ssize_t {
+        ::libc::write(fd, buf, count)
+    }
+
+    /// A Xen ioctl. `None` means "perform the real ioctl".
+    unsafe fn ioctl(&self, _fd: i32, _req: u64, _arg: *mut u8, _arg_len: usize) -> Option<i32> {
+        None
+    }
+}
+
+thread_local! {
+    static HOOKS: Cell<Option<&'static dyn SimHooks>> = const { Cell::new(None) };
+}
+
+/// Install (or, with `None`, remove) the hooks of the current thread.
+pub fn install(hooks: Option<&'static dyn SimHooks>) {
+    HOOKS.with(|h| h.set(hooks));
+}
+
+#[inline]
+fn hooks() -> Option<&'static dyn SimHooks> {
+    HOOKS.try_with(|h| h.get()).unwrap_or(None)
+}
+
+// ---------------------------------------------------------------------------------------------
+// H1: bitmap words
+
+#[derive(Debug, Default)]
+pub struct AtomicU64(std::sync::atomic::AtomicU64);
+
+impl AtomicU64 {
+    pub fn new(v: u64) -> Self {
+        AtomicU64(std::sync::atomic::AtomicU64::new(v))
+    }
+
+    #[inline]
+    fn id(&self) -> usize {
+        self as *const Self as usize
+    }
+
+    pub fn load(&self, order: std::sync::atomic::Ordering) -> u64 {
+        if let Some(h) = hooks() {
+            h.atomic(self.id(), AtomicOp::Load, 0);
+        }
+        self.0.load(order)
+    }
+
+    pub fn store(&self, val: u64, order: std::sync::atomic::Ordering) {
+        if let Some(h) = hooks() {
+            h.atomic(self.id(), AtomicOp::Store, val);
+        }
+        self.0.store(val, order)
+    }
+
+    pub fn fetch_or(&self, val: u64, order: std::sync::atomic::Ordering) -> u64 {
+        if let Some(h) = hooks() {
+            h.atomic(self.id(), AtomicOp::FetchOr, val);
+        }
+        self.0.fetch_or(val, order)
+    }
+
+    pub fn fetch_and(&self, val: u64, order: std::sync::atomic::Ordering) -> u64 {
+        if let Some(h) = hooks() {
+            h.atomic(self.id(), AtomicOp::FetchAnd, val);
+        }
+        self.0.fetch_and(val, order)
+    }
+}
+
+// ---------------------------------------------------------------------------------------------
+// H2 / H6: primitive guest memory accesses
+
+#[inline]
+pub unsafe fn read_volatile<T>(src: *const T) -> T {
+    if let Some(h) = hooks() {
+        h.access(false, src as usize, std::mem::size_of::<T>());
+    }
+    std::ptr::read_volatile(src)
+}
+
+#[inline]
+pub unsafe fn write_volatile<T>(dst: *mut T, val: T) {
+    if let Some(h) = hooks() {
+        h.access(true, dst as usize, std::mem::size_of::<T>());
+    }
+    std::ptr::write_volatile(dst, val)
+}
+
+#[inline]
+pub unsafe fn copy<T>(src: *const T, dst: *mut T, count: usize) {
+    if let Some(h) = hooks() {
+        h.copy(
+            src as *const u8,
+            dst as *mut u8,
+            count.wrapping_mul(std::mem::size_of::<T>()),
+        );
+    }
+    std::ptr::copy(src, dst, count)
+}
+
+#[inline]
+pub unsafe fn bulk_copy(dst: *mut u8, src: *const u8, len: usize) {
+    if let Some(h) = hooks() {
+        if h.bulk(dst, src, len) {
+            return;
+        }
+    }
+    std::ptr::copy_nonoverlapping(src, dst, len)
+}
+
+#[inline]
+pub fn touch(addr: usize, len: usize, write: bool) {
+    if let Some(h) = hooks() {
+        h.touch(addr, len, write);
+    }
+}
+
+// ---------------------------------------------------------------------------------------------
+// H3: ArcSwap and the update mutex
+
+#[cfg(feature = "backend-atomic")]
+#[derive(Debug)]
+pub struct ArcSwap<T>(arc_swap::ArcSwap<T>);
+
+#[cfg(feature = "backend-atomic")]
+impl<T> ArcSwap<T> {
+    pub fn new(val: std::sync::Arc<T>) -> Self {
+        ArcSwap(arc_swap::ArcSwap::new(val))
+    }
+
+    pub fn load(&self) -> arc_swap::Guard<std::sync::Arc<T>> {
+        if let Some(h) = hooks() {
+            h.swap_point(SwapPoint::BeforeLoad, self as *const Self as usize);
+        }
+        self.0.load()
+    }
+
+    pub fn store(&self, val: std::sync::Arc<T>) {
+        if let Some(h) = hooks() {
+            h.swap_point(SwapPoint::BeforeStore, self as *const Self as usize);
+        }
+        self.0.store(val)
+    }
+}
+
+#[derive(Debug, Default)]
+pub struct Mutex<T>(std::sync::Mutex<T>);
+
+#[derive(Debug)]
+pub struct MutexGuard<'a, T> {
+    guard: Option<std::sync::MutexGuard<'a, T>>,
+    id: usize,
+}
+
+impl<T> Mutex<T> {
+    pub fn new(val: T) -> Self {
+        Mutex(std::sync::Mutex::new(val))
+    }
+
+    pub fn lock(&self) -> std::sync::LockResult<MutexGuard<'_, T>> {
+        let id = self as *const Self as usize;
+        let wrap = |guard| MutexGuard {
+            guard: Some(guard),
+            id,
+        };
+        match hooks() {
+            None => match self.0.lock() {
+                Ok(g) => Ok(wrap(g)),
+                Err(e) => Err(std::sync::PoisonError::new(wrap(e.into_inner()))),
+            },
+            Some(h) => loop {
+                h.swap_point(SwapPoint::LockAttempt, id);
+                match self.0.try_lock() {
+                    Ok(g) => {
+                        h.swap_point(SwapPoint::Locked, id);
+                        return Ok(wrap(g));
+                    }
+                    Err(std::sync::TryLockError::Poisoned(e)) => {
+                        h.swap_point(SwapPoint::Locked, id);
+                        return Err(std::sync::PoisonError::new(wrap(e.into_inner())));
+                    }
+                    Err(std::sync::TryLockError::WouldBlock) => {
+                        h.swap_point(SwapPoint::LockBlocked, id)
+                    }
+                }
+            },
+        }
+    }
+}
+
+impl<T> std::ops::Deref for MutexGuard<'_, T> {
+    type Target = T;
+    fn deref(&self) -> &T {
+        self.guard.as_ref().unwrap()
+    }
+}
+
+impl<T> std::ops::DerefMut for MutexGuard<'_, T> {
+    fn deref_mut(&mut self) -> &mut T {
+        self.guard.as_mut().unwrap()
+    }
+}
+
+impl<T> Drop for MutexGuard<'_, T> {
+    fn drop(&mut self) {
+        drop(self.guard.take());
+        if !std::thread::panicking() {
+            if let Some(h) = hooks() {
+                h.swap_point(SwapPoint::Unlocked, self.id);
+            }
+        }
+    }
+}
+
+// ---------------------------------------------------------------------------------------------
+// H4: system calls. Modules import this as `libc`, so that `libc::mmap(...)` lands here.
+
+#[cfg(any(feature = "backend-mmap", feature = "rawfd"))]
+pub mod sys {
+    pub use ::libc::*;
+
+    pub unsafe fn mmap(
+        addr: *mut c_void,
+        len: size_t,
+        prot: c_int,
+        flags: c_int,
+        fd: c_int,
+        offset: off_t,
+    ) -> *mut c_void {
+        match super::hooks() {
+            Some(h) => h.mmap(addr, len, prot, flags, fd, offset),
+            None => ::libc::mmap(addr, len, prot, flags, fd, offset),
+        }
+    }
+
+    pub unsafe fn munmap(addr: *mut c_void, len: size_t) -> c_int {
+        match super::hooks() {
+            Some(h) => h.munmap(addr, len),
+            None => ::libc::munmap(addr, len),
+        }
+    }
+
+    pub unsafe fn read(fd: c_int, buf: *mut c_void, count: size_t) -> ssize_t {
+        match super::hooks() {
+            Some(h) => h.read(fd, buf, count),
+            None => ::libc::read(fd, buf, count),
+        }
+    }
+
+    pub unsafe fn write(fd: c_int, buf: *const c_void, count: size_t) -> ssize_t {
+        match super::hooks() {
+            Some(h) => h.write(fd, buf, count),
+            None => ::libc::write(fd, buf, count),
+        }
+    }
+}
+
+// ---------------------------------------------------------------------------------------------
+// H5: Xen ioctls
+
+#[cfg(all(feature = "xen", target_family = "unix"))]
+pub unsafe fn ioctl_with_ref<F: std::os::unix::io::AsRawFd, T>(
+    fd: &F,
+    req: std::os::raw::c_ulong,
+    arg: &T,
+) -> std::os::raw::c_int {
+    if let Some(h) = hooks() {
+        if let Some(ret) = h.ioctl(
+            fd.as_raw_fd(),
+            req as u64,
+            arg as *const T as *mut u8,
+            std::mem::size_of::<T>(),
+        ) {
+            return ret;
+        }
+    }
+    vmm_sys_util::ioctl::ioctl_with_ref(fd, req, arg)
+}
